@@ -38,13 +38,26 @@ impl Deserialize for NativeScriptEnum {
             let len = raw.array()?;
             //let mut read_len = CBORReadLen::new(len);
             let initial_position = raw.as_mut_ref().seek(SeekFrom::Current(0)).unwrap();
+            // an indefinite-length script array is closed by a break, which belongs to the script
+            let read_ending_break = |raw: &mut Deserializer<R>| -> Result<(), DeserializeError> {
+                match len {
+                    cbor_event::Len::Len(_) => Ok(()),
+                    cbor_event::Len::Indefinite => match raw.special()? {
+                        CBORSpecial::Break => Ok(()),
+                        _ => Err(DeserializeFailure::EndingBreakMissing.into()),
+                    },
+                }
+            };
             match (|raw: &mut Deserializer<_>| -> Result<_, DeserializeError> {
                 Ok(ScriptPubkey::deserialize_as_embedded_group(
                     raw, /*&mut read_len, */ len,
                 )?)
             })(raw)
             {
-                Ok(variant) => return Ok(NativeScriptEnum::ScriptPubkey(variant)),
+                Ok(variant) => {
+                    read_ending_break(raw)?;
+                    return Ok(NativeScriptEnum::ScriptPubkey(variant));
+                }
                 Err(_) => raw
                     .as_mut_ref()
                     .seek(SeekFrom::Start(initial_position))
@@ -56,7 +69,10 @@ impl Deserialize for NativeScriptEnum {
                 )?)
             })(raw)
             {
-                Ok(variant) => return Ok(NativeScriptEnum::ScriptAll(variant)),
+                Ok(variant) => {
+                    read_ending_break(raw)?;
+                    return Ok(NativeScriptEnum::ScriptAll(variant));
+                }
                 Err(_) => raw
                     .as_mut_ref()
                     .seek(SeekFrom::Start(initial_position))
@@ -68,7 +84,10 @@ impl Deserialize for NativeScriptEnum {
                 )?)
             })(raw)
             {
-                Ok(variant) => return Ok(NativeScriptEnum::ScriptAny(variant)),
+                Ok(variant) => {
+                    read_ending_break(raw)?;
+                    return Ok(NativeScriptEnum::ScriptAny(variant));
+                }
                 Err(_) => raw
                     .as_mut_ref()
                     .seek(SeekFrom::Start(initial_position))
@@ -80,7 +99,10 @@ impl Deserialize for NativeScriptEnum {
                 )?)
             })(raw)
             {
-                Ok(variant) => return Ok(NativeScriptEnum::ScriptNOfK(variant)),
+                Ok(variant) => {
+                    read_ending_break(raw)?;
+                    return Ok(NativeScriptEnum::ScriptNOfK(variant));
+                }
                 Err(_) => raw
                     .as_mut_ref()
                     .seek(SeekFrom::Start(initial_position))
@@ -92,7 +114,10 @@ impl Deserialize for NativeScriptEnum {
                 )?)
             })(raw)
             {
-                Ok(variant) => return Ok(NativeScriptEnum::TimelockStart(variant)),
+                Ok(variant) => {
+                    read_ending_break(raw)?;
+                    return Ok(NativeScriptEnum::TimelockStart(variant));
+                }
                 Err(_) => raw
                     .as_mut_ref()
                     .seek(SeekFrom::Start(initial_position))
@@ -104,7 +129,10 @@ impl Deserialize for NativeScriptEnum {
                 )?)
             })(raw)
             {
-                Ok(variant) => return Ok(NativeScriptEnum::TimelockExpiry(variant)),
+                Ok(variant) => {
+                    read_ending_break(raw)?;
+                    return Ok(NativeScriptEnum::TimelockExpiry(variant));
+                }
                 Err(_) => raw
                     .as_mut_ref()
                     .seek(SeekFrom::Start(initial_position))
